@@ -12,6 +12,7 @@ import itertools
 from specs import core as S
 from specs import structure as T
 from vlib import codec
+from props import containers  # noqa: F401  (registers its checks before the worker pool is forked)
 from vlib import domains as D
 from vlib.core import bad, check, ok
 
@@ -801,4 +802,5 @@ def run(ctx):
     ]
     from props import dlayer
 
+    containers.run_for(ctx, "C10")
     dlayer.run(ctx, "C10")
